@@ -320,8 +320,13 @@ func runDebounce(c *vh.Ctx) {
 				plans[j] = plan{id: j, forced: r.Intn(5) == 0, kind: k, gapUS: gap, edsOnly: k == kind.Endpoints}
 			}
 			pushHoldUS := make([]int, 200)
+			afterUS := int(after / time.Microsecond)
 			for j := range pushHoldUS {
 				pushHoldUS[j] = r.Intn(3000)
+				if r.Intn(3) == 0 {
+					// a push that outlasts the quiet period several times over, so that timers fire while it runs
+					pushHoldUS[j] = afterUS*(1+r.Intn(5)) + r.Intn(afterUS)
+				}
 			}
 
 			ch := make(chan *model.PushRequest, 10)
@@ -365,16 +370,44 @@ func runDebounce(c *vh.Ctx) {
 					Forced:         p.forced,
 				}
 			}
-			// inputs stopped: bounded progress until every accepted notification is accounted for
-			deadline := time.Now().Add(60 * time.Second)
+			// inputs stopped: bounded progress until every accepted notification is accounted for. The loop under test
+			// is a closed system: either a push is in flight (the harness knows: inPush), or a timer of at most `max`
+			// is armed, or nothing is pending. "Wedged" is decided relative to the runtime's own timers, not to a
+			// wall-clock budget: 300 consecutive reference sleeps of length `max` elapse with no push in flight, no push
+			// started and no notification committed, while accepted notifications are still uncommitted.
+			deadline := time.Now().Add(120 * time.Second)
+			progress := func() (int64, bool) {
+				mu.Lock()
+				defer mu.Unlock()
+				return updateSent.Load()*1000003 + int64(pushIdx), inPush == 0
+			}
+			stall, wedged := 0, false
 			for updateSent.Load() < int64(ntags) && time.Now().Before(deadline) {
-				time.Sleep(200 * time.Microsecond)
+				before, _ := progress()
+				time.Sleep(max)
+				now, nothingInFlight := progress()
+				if now == before && nothingInFlight {
+					stall++
+				} else {
+					stall = 0
+				}
+				if stall >= 300 {
+					wedged = true
+					break
+				}
 			}
 			quiesced := updateSent.Load() >= int64(ntags)
 			close(stop)
 			<-done
 			mu.Lock()
 			defer mu.Unlock()
+			if wedged {
+				c.Violation("debounce:wedged-with-uncommitted-notifications",
+					fmt.Sprintf("debounce loop stopped making progress: %d of %d accepted notifications committed, no push in flight, no push started while 300 reference timers of debounceMax=%v elapsed (after=%v edsDebounce=%v, %d pushes so far)",
+						updateSent.Load(), ntags, max, after, edsDebounce, len(deliveries)),
+					map[string]any{"after": after.String(), "max": max.String(), "edsDebounce": edsDebounce, "ntags": ntags})
+				return
+			}
 			if !quiesced {
 				c.Inconclusive(fmt.Sprintf("debounce did not account for all notifications: updateSent=%d of %d", updateSent.Load(), ntags))
 				return
